@@ -79,6 +79,54 @@ class Timeout(Exception):
     pass
 
 
+LONG = 'the quick brown fox jumps over the lazy dog 0123456789'      # a long run of plain characters
+
+
+def long_literal_cases():
+    """malformed documents whose fault comes after a long run of plain characters inside a literal (a matcher that backtracks over the ways of
+    splitting the run needs 2^n steps): each parsed in its own process with a hard limit"""
+    docs = []
+    for ver in ('2.0', '3.0'):
+        head = 'ver:"%s"\nid,dis\n' % ver
+        docs += [head + '@a,"%s\n@b,"x"\n' % LONG, head + '@a,`%s\n@b,"x"\n' % LONG, head + '@a,"%s\\q"\n' % LONG, head + '@a,"%s\x01"\n' % LONG,
+                 head + '@a,`%s\\q`\n' % LONG, head + '@a,"%s' % LONG,
+                 'ver:"%s" dis:"%s\nid\n' % (ver, LONG)]
+    return docs
+
+
+_LONG_CODE = r'''
+import sys, io, contextlib
+sys.path.insert(0, sys.argv[1])
+text = sys.stdin.read()
+buf = io.StringIO()
+with contextlib.redirect_stdout(buf):
+    import hszinc
+    try:
+        hszinc.parse(text, mode=hszinc.MODE_ZINC)
+        r = 'ACCEPTED'
+    except hszinc.zincparser.ZincParseException as e:
+        r = 'REJECTED'
+    except Exception as e:
+        r = 'OTHER %s' % type(e).__name__
+print('RES ' + r)
+'''
+
+
+def run_long(text, limit=15):
+    import os
+    import subprocess
+    import sys
+    repo = os.environ.get('HV_REPO', '/repo')
+    try:
+        p = subprocess.run([sys.executable, '-c', _LONG_CODE, repo], input=text, capture_output=True, text=True, timeout=limit)
+    except subprocess.TimeoutExpired:
+        return 'parsing a malformed document with a long literal did not terminate within %d s' % limit
+    res = [ln[4:] for ln in p.stdout.splitlines() if ln.startswith('RES ')]
+    if res != ['REJECTED']:
+        return 'malformed document with a long literal: %s' % (res or p.stderr[-200:])
+    return None
+
+
 def bounded(tier, seed):
     import hszinc
     rnd = random.Random(seed)
@@ -94,6 +142,17 @@ def bounded(tier, seed):
         except Exception:
             pass
     per = 6 if tier != 'thorough' else 60
+    from concurrent.futures import ThreadPoolExecutor
+    ldocs = long_literal_cases()
+    with ThreadPoolExecutor(10) as ex:
+        lres = list(ex.map(run_long, ldocs))
+    cases += len(ldocs)
+    for t, r in zip(ldocs, lres):
+        if r and len(fails) < 6:
+            fails.append({'id': 'C09/long-literal', 'what': r + ': %r' % t[:90], 'input': {'kind': 'long', 'text': t}})
+    if any(r and 'terminate' in r for r in lres):
+        # the in-process sweeps below would hang on the same fault: report what was found
+        return {'cases': cases, 'failures': fails, 'bound': 'long-literal documents only: the remaining sweeps were skipped because parsing does not terminate'}
 
     def run(text, what):
         nonlocal cases
@@ -149,6 +208,9 @@ def bounded(tier, seed):
 
 def replay(inp):
     k = inp.get('kind')
+    if k == 'long':
+        r = run_long(inp['text'])
+        return {'reproduced': bool(r), 'detail': r or ''}
     if k in ('text', 'zinc_accepts') and inp.get('text') is not None and inp.get('what', 'grid') != 'scalar' and k == 'text':
         r, verdict, g = judge_grid(inp['text'])
         return {'reproduced': bool(r), 'detail': r if not isinstance(r, tuple) else r[1]}
